@@ -434,11 +434,23 @@ static void ladder_case(const char *sig)
       free(v);
       econf_ext_value *ev = NULL;
       if (!econf_getExtValue(kf, NULL, "k", &ev) && ev) { snprintf(what, sizeof what, "step %d (name of %zu bytes): file of the extended value", i, L); expect_str(what, ev->file, full.s, sig); econf_freeExtValue(ev); }
+      /* written under a name of the same length (last byte changed), read back */
+      char *wname = xstrdup(name); wname[L - 1] = wname[L - 1] == '_' ? '-' : '_';
+      econf_err wrc = econf_writeFile(kf, dir, wname);
+      sbuf wfull = {0}; sb_printf(&wfull, "%s/%s", dir, wname);
+      if (wrc) mc_fail(sig, "step %d: econf_writeFile to a file name of %zu bytes failed: %d (%s); %s", i, L, (int)wrc, econf_errString(wrc), sig);
+      else {
+        econf_file *back = NULL; v = NULL;
+        if (econf_readFile(&back, wfull.s, "=", "#") || econf_getStringValue(back, NULL, "k", &v) || !v || strcmp(v, want)) mc_fail(sig, "step %d: the file written under a %zu-byte name does not read back; %s", i, L, sig);
+        free(v); if (back) econf_freeFile(back);
+      }
+      unlink(wfull.s); sb_free(&wfull); free(wname);
+      mc_st->libcalls += 2;
       econf_freeFile(kf);
     }
     unlink(full.s); sb_free(&full); free(name);
   }
-  rmdir(dir);
+  { char cmd[600]; snprintf(cmd, sizeof cmd, "rm -rf '%s'", dir); if (system(cmd) != 0) mc_die("cleanup"); }
 }
 
 static void toolarg_case(const char *sig)
